@@ -15,7 +15,10 @@ def cases(draw, procs=False):
                            max_tests=3, weights_good=80, layer_decl=90, explicit_unit=True, max_children=4))
     # (NotImplementedError tear-downs only matter in directed topologies: half of the procs worlds are shaped)
     if draw(st.integers(0, 1 if procs else 5)) == 0:
-        spec = draw(gen.shaped_world(nie=procs))
+        # (with subprocesses the scenarios that involve a NotImplementedError tear-down are drawn more often)
+        spec = draw(gen.shaped_world(nie=procs, focus=('sweep-exc+nie', 'sweep-nie+exc', 'nie-with-base-left',
+                                                       'derived-setup+base-nie', 'derived-setup+base-nie')
+                                     if procs else None))
     # layer-level hooks should be common, otherwise the trace sees little
     for L in spec['layers']:
         if draw(st.integers(0, 99)) < 60:
@@ -114,7 +117,7 @@ class InProc(Part):
 class Procs(Part):
     """NotImplementedError tear-downs and -j: the parent runs in the worker, children are real runner processes"""
     name = 'procs'
-    examples = {'quick': 64, 'thorough': 1500}
+    examples = {'quick': 160, 'thorough': 2400}
     shrink_cap = {'quick': 60, 'thorough': 300}
 
     def strategy(self, tier):
